@@ -25,7 +25,7 @@ def probe(c):
     from chartparse.instrument import Instrument, Difficulty
     us = lambda td: (td.days * 86400 + td.seconds) * 10**6 + td.microseconds
     q = c.sync_track.bpm_events.timestamp_at_tick_no_optimize_return
-    t = c[Instrument.GUITAR][Difficulty.EXPERT]
+    t = next(t for dd in c.instrument_tracks.values() for t in dd.values())  # the only track of the chart
     notes = []
     for e in t.note_events:
         s = e.sustain if isinstance(e.sustain, int) else list(e.sustain)
@@ -73,6 +73,8 @@ def plan(tier, seed):
     maps = MAPS[:5] + MAPS[6:] if tier == "quick" else MAPS
     shards = [(r, MAPS.index(m), lo) for r in ress for m in maps for lo in range(0, len(PATTERNS), 128)]
     shards.append(("empty",))
+    shards.append(("flagonly",))
+    shards += [("headers", k) for k in range(8)]
     shards += [("big", lo) for lo in range(0, len(PATTERNS), 128)]
     return dict(
         shards=shards,
@@ -103,6 +105,43 @@ def run_shard(shard, ctx):
             ctx.evaluations += 1
             if got != [[], None]:
                 e1.report(ctx, "empty-track", text, PROBE_SRC, [[[], None]], got, "note-less track: last_note_end must be absent, body=%r" % body)
+        return
+    if shard[0] == "headers":
+        # the statement is about notes of any track: a sample of the patterns under every one of the 40 headers
+        from ..refmodel import TRACK_HEADERS
+
+        mname, mlines = MAPS[4]
+        sync = ["0 = TS 4", "0 = B 120000"] + mlines
+        for header in list(TRACK_HEADERS)[shard[1] :: 8]:
+            for pat in PATTERNS[::16] + PATTERNS[-3:]:
+                ctx.node()
+                sus, longest = expected_note(pat)
+                for fs in ("none", "both"):
+                    group = pat_lines(pat) + ["10 = N %d %d" % f for f in FLAGSETS[fs]]
+                    _one(ctx, 192, sync, mname, "between", fs, "lanes-flags", ["2 = N 0 0"], group, ["12 = N 1 1"], pat, sus, longest, header=header)
+        return
+    if shard[0] == "flagonly":
+        # "flag lines never contribute a length": a tick that carries ONLY flag lines must look the same whatever
+        # lengths those lines carry (differential against the same chart with length 0)
+        for mname, mlines in MAPS:
+            sync = ["0 = TS 4", "0 = B 120000"] + mlines
+            for flags_ in ((6,), (5,), (5, 6), (6, 5), (6, 6)):
+                for before, after in ((["2 = N 0 0"], []), (["2 = N 0 0"], ["12 = N 1 1"]), ([], ["12 = N 1 1"]), ([], [])):
+                    if 5 in flags_ and not before:
+                        continue  # forcing the first note is rejected
+                    ctx.node()
+                    base = None
+                    for L in (0, 1, 3, 5, 480):
+                        for which in range(len(flags_)):
+                            body = before + ["10 = N %d %d" % (f, L if k == which else 0) for k, f in enumerate(flags_)] + after
+                            text = mk(res=192, sync=sync, tracks={"ExpertSingle": body})
+                            got = e1.run_probe(probe, text)
+                            ctx.case(text, nontrivial=L > 0, sample=lambda: dict(body=body, sync=sync))
+                            ctx.evaluations += 1
+                            if base is None:
+                                base = got
+                            elif got != base:
+                                e1.report(ctx, "sustain", text, PROBE_SRC, [base], got, "a tick carrying only flag lines: the length %d written on a flag line changes the note (map %s): body=%r" % (L, mname, body))
         return
     if shard[0] == "big":
         # tick and length MAGNITUDES: the note at a tick beyond 2^32, lengths scaled by 2^30 (fast tempo keeps times small)
@@ -146,9 +185,9 @@ def run_shard(shard, ctx):
                     _one(ctx, res, sync, mname, cname, fs, order, before, group, after, pat, sus, longest)
 
 
-def _one(ctx, res, sync, mname, cname, fs, order, before, group, after, pat, sus, longest):
+def _one(ctx, res, sync, mname, cname, fs, order, before, group, after, pat, sus, longest, header="ExpertSingle"):
     body = before + group + after
-    text = mk(res=res, sync=sync, tracks={"ExpertSingle": body})
+    text = mk(res=res, sync=sync, tracks={header: body})
     exp_notes = []
     if before:
         exp_notes.append([2, 0, 0, 2, 0, True])
@@ -162,7 +201,7 @@ def _one(ctx, res, sync, mname, cname, fs, order, before, group, after, pat, sus
     ctx.evaluations += 6 * len(exp_notes) + 1
     ctx.hist["sustain_" + ("tuple" if isinstance(sus, list) else "uniform")] += 1
     if got != expected:
-        e1.report(ctx, "sustain", text, PROBE_SRC, [expected], got, "sustain / end tick / end time / last-note-end differ (map %s, context %s, flags %s, line order %s): body=%r" % (mname, cname, fs, order, body))
+        e1.report(ctx, "sustain", text, PROBE_SRC, [expected], got, "sustain / end tick / end time / last-note-end differ (section [%s], map %s, context %s, flags %s, line order %s): body=%r" % (header, mname, cname, fs, order, body))
 
 
 def replay(case):
